@@ -390,8 +390,11 @@ func vecCacheHistories(r *RunCtx) {
 				we = werr.Error()
 			}
 			desc := fmt.Sprintf("task %d %s on handle %s (%s segment, %d docs)", t, vcOpString(&s.op), vcOpString(&s.open), kind, ndocs)
-			r.ev("%s -> %v", desc, s.got)
-			r.state(hashString(fmt.Sprint(desc, s.got)))
+			// results of a clustered (IVF) index legitimately vary between executions:
+			// zapx adds vectors in Go map iteration order, which decides their cluster in
+			// any approximate engine (and in the stub); they are not part of the digest
+			r.evv(desc, "%s -> %v", desc, s.got)
+			r.state(hashString(desc))
 			if s.err != we {
 				r.fail("C16.history", "Search", "%s: error %q, on a fresh twin %q", desc, s.err, we)
 			}
